@@ -2,6 +2,7 @@ import MpVerif.C04.Lemmas
 import MpVerif.C04.Chains
 import MpVerif.C04.Shared
 import MpVerif.Gen.ValCvt
+import MpVerif.C04.Builder
 /-!
 # C04 — property theorems
 
@@ -614,7 +615,9 @@ example (S' : St) (h : runFrom sharedGraph ⟨fun _ => 2⟩ ⟨.pre, .generic, [
 
 /-! ## History independence -/
 
-/-- The result of a transfer does not depend on what the value nodes contained before it. -/
+/-- On the IDEALISED machine (`runFrom`: `clean` zeroes all memory) the result trivially does not depend on earlier contents — this is
+    true by construction and claims nothing about the code.  The RESULT about the faithful machine (`runFromReg`: only the REGISTERED
+    nodes are cleaned) is `C04_history_independent_registered` / `C04_history_independent_session_registered` below. -/
 theorem C04_history_independent_step (g : Graph) (prev prev' : St) (c : Call) :
     runFrom g prev c = runFrom g prev' c := rfl
 
@@ -681,6 +684,120 @@ theorem C04_iis_total_partial (es : List Entry) (S : St)
 
 /-- instance: the example graph with slack status `upp` (3) -/
 example : (runFrom exampleGraph ⟨fun _ => 0⟩ ⟨.post, .iis, [(4, [0, 0, 3]), (5, [2])]⟩).map (fun S => readNode S 1 1) = some [1] := by decide
+
+
+/-! ## History independence as a RESULT: `CleanUpValueNodes` zeroes only the registered nodes (`Registered.lean`)
+
+`runFromReg` cleans exactly the registered value nodes (the indices of `Graph.sizes` = the `val_nodes_` dump of the real presolver) and
+leaves every other cell as the previous calls left it.  That the result does not depend on those leftovers needs that every node a
+link entry touches is registered — `Graph.nodesRegistered`, checked on every real graph (`wf2`) and proved for every graph the
+constructors can build (`C04_built_nodes_registered`).  `runFrom` (used by the theorems above) is `runFromReg` on an all-zero memory. -/
+
+/-- the nodes a call's result lives on: the registered ones and those named in the call's argument -/
+def callNodes (g : Graph) (c : Call) (n : Nat) : Bool := g.registered n || (c.inputs.lookup n).isSome
+
+theorem C04_runFrom_is_runFromReg_on_zero_memory (g : Graph) (prev : St) (c : Call) :
+    runFrom g prev c = runFromReg g ⟨fun _ => 0⟩ c := by
+  have : cleanReg g ⟨fun _ => 0⟩ = clean prev := by
+    unfold cleanReg clean
+    congr 1
+    funext x
+    simp
+  simp only [runFrom, runFromReg, this]
+  rfl
+
+/-- **One transfer is independent of everything before it**: whatever the memory contained (`prev`, `prev'`: leftovers of ANY earlier
+    calls, including raising ones), the two runs both raise or return states that agree on every registered node and every node named
+    in the argument — provided every node a link entry touches is registered. -/
+theorem C04_history_independent_registered (g : Graph) (hreg : g.nodesRegistered = true) (prev prev' : St) (c : Call) :
+    OptAgree (callNodes g c) (runFromReg g prev c) (runFromReg g prev' c) := by
+  have hes : ∀ e ∈ g.entries, e.nodes.all (callNodes g c) = true := by
+    intro e he
+    have h1 := (List.all_eq_true.mp hreg) e he
+    rw [List.all_eq_true] at h1 ⊢
+    intro n hn
+    simp [callNodes, h1 n hn]
+  have h0 : AgreeOn (callNodes g c) (loadInto (cleanReg g prev) g.size c.inputs) (loadInto (cleanReg g prev') g.size c.inputs) := by
+    intro x hx
+    simp only [loadInto]
+    cases hl : c.inputs.lookup x.1 with
+    | some v => rfl
+    | none =>
+      simp only [callNodes, hl, Option.isSome_none, Bool.or_false] at hx
+      simp [cleanReg, hx]
+  unfold runFromReg
+  cases c.dir with
+  | pre => exact agree_runPre c.kind g.entries hes _ _ h0
+  | post => exact agree_runPost c.kind g.entries hes _ _ h0
+
+/-- … hence every theorem stated for `runFrom` holds for the faithful `runFromReg` from ANY memory, on the nodes that matter. -/
+theorem C04_runFromReg_agrees_with_fresh (g : Graph) (hreg : g.nodesRegistered = true) (prev : St) (c : Call) :
+    OptAgree (callNodes g c) (runFromReg g prev c) (runFrom g prev c) := by
+  rw [C04_runFrom_is_runFromReg_on_zero_memory]
+  exact C04_history_independent_registered g hreg prev _ c
+
+/-- a whole session on the faithful machine; `dirt` = what a raising call leaves behind -/
+def sessionReg (g : Graph) (dirt : St → Call → St) : St → List Call → List (Option St)
+  | _, [] => []
+  | prev, c :: cs =>
+    let r := runFromReg g prev c
+    r :: sessionReg g dirt (r.getD (dirt prev c)) cs
+
+/-- every result of a session agrees with the corresponding call on a fresh presolver -/
+def SessionAgree (g : Graph) : List (Option St) → List Call → Prop
+  | [], [] => True
+  | r :: rs, c :: cs => OptAgree (callNodes g c) r (runFrom g ⟨fun _ => 0⟩ c) ∧ SessionAgree g rs cs
+  | _, _ => False
+
+/-- **Every call of every history** returns what it returns on a fresh presolver (on the nodes that matter). -/
+theorem C04_history_independent_session_registered (g : Graph) (hreg : g.nodesRegistered = true) (dirt : St → Call → St)
+    (s0 : St) (cs : List Call) : SessionAgree g (sessionReg g dirt s0 cs) cs := by
+  induction cs generalizing s0 with
+  | nil => trivial
+  | cons c cs ih =>
+    simp only [sessionReg, SessionAgree]
+    exact ⟨C04_runFromReg_agrees_with_fresh g hreg s0 c, ih _⟩
+
+/-- the hypothesis is necessary: an entry on an UNREGISTERED node (here node 7 of a graph with 2 registered nodes) makes the result
+    depend on what earlier calls left there -/
+theorem C04_counterexample_unregistered_node_keeps_history :
+    let g : Graph := ⟨[.copy ⟨7, 0, 1⟩ ⟨1, 0, 1⟩], [1, 1]⟩
+    g.nodesRegistered = false ∧
+    (runFromReg g ⟨fun _ => 5⟩ ⟨.pre, .generic, []⟩).map (fun S => readNode S 1 1) = some [5] ∧
+    (runFromReg g ⟨fun _ => 0⟩ ⟨.pre, .generic, []⟩).map (fun S => readNode S 1 1) = some [0] := by
+  decide
+
+example : exampleGraph.nodesRegistered = true ∧ sharedGraph.nodesRegistered = true := by decide
+
+/-! ## The graph as the constructors build it (`Builder.lean`): registration, bounds and certificates are established, not assumed -/
+
+/-- For EVERY sequence of constructor calls (`ValueNode` ctor, `Add`, `ConvertVars`, `~AutoLinkScope`, `ConvertRange`,
+    `AddAllUnbridged` — with the `is_bridged_` discipline of `ConstraintKeeper`): every node an entry touches is registered and every
+    range lies inside the declared node size. -/
+theorem C04_built_nodes_registered (isDest : Nat → Bool) (ops : List BOp) (st : BState)
+    (h : build isDest ops ⟨[], [], []⟩ = some st) :
+    st.graph.nodesRegistered = true ∧ ∀ e ∈ st.entries, e.inside st.sizes := by
+  have hI := Inv.build ops (Inv.empty isDest) h
+  refine ⟨?_, hI.inside⟩
+  simp only [Graph.nodesRegistered, BState.graph, List.all_eq_true, Graph.registered, decide_eq_true_eq]
+  exact hI.registered
+
+/-- … and a postsolve trace certificate EXISTS for every cell whose history does not pass through a Many2Many-family entry (for those,
+    max-among-non-zero applies: `C04_shared_postsolve_reaches`): in particular for every original variable and every constraint converted
+    by 1:1 steps and `RangeCon2Slack`.  The per-run computation of `tracePost` on the real graph is therefore a tie of this model to
+    the code, not a hypothesis of the theorems. -/
+theorem C04_built_certificates_exist (isDest : Nat → Bool) (ops : List BOp) (st : BState)
+    (h : build isDest ops ⟨[], [], []⟩ = some st) (k : Kind) (c : Cell) (hm : hitsM2M st.entries c = false) :
+    ∃ o, tracePost k (fun c => !isDest c.1) st.entries c = some o :=
+  tracePost_exists k _ st.entries c (Inv.build ops (Inv.empty isDest) h).wf hm
+
+/-- the example graph is what the constructors build for `lb ≤ x0 + x1 ≤ ub` with the range type not accepted -/
+example : (build (fun n => n == 4 || n == 5)
+      [.newNode, .newNode, .newNode, .newNode, .newNode, .newNode, .copyVars 0 4 2, .newItem 1 1, .autoLink (1, 0) [⟨2, 0, 1⟩],
+       .range2slack (2, 0) 3 4 ⟨[(1, 0), (1, 1)], [], 1⟩, .deliver (3, 0) 5] ⟨[], [], []⟩).map (fun st => (st.entries.length, st.sizes))
+    = some (4, [2, 1, 1, 1, 3, 1]) := by decide
+
+example : traceWF (fun c => decide (c.1 < 4)) exampleGraph.entries = true ∧ hitsM2M exampleGraph.entries (1, 0) = false := by decide
 
 /-! ## Frame: nothing is invented -/
 
